@@ -342,6 +342,13 @@ func famOf(x string) []string {
 	return nil
 }
 
+func min(a, b int) int {
+	if a < b {
+		return a
+	}
+	return b
+}
+
 func genC08(c *Ctx) {
 	isActive := map[string]bool{}
 	for _, x := range tActive {
@@ -404,6 +411,52 @@ func genC08(c *Ctx) {
 						map[string]interface{}{"expression": ye, "allowed": []string{a + e}, "allowed_variant": []string{b + e}})
 				}
 			}
+			// the spelling also occurs inside a user-defined reference name earlier / later in the expression
+			for _, tpl := range []string{"LicenseRef-%[1]s OR %[2]s", "%[2]s OR LicenseRef-%[1]s", "DocumentRef-%[1]s:LicenseRef-%[1]s AND %[2]s"} {
+				if idx%7 != 0 && !c.thorough() {
+					break
+				}
+				name := x + "-or-later"
+				if pr[0] == 0 {
+					name = x + "-only"
+				}
+				ea, eb := fmt.Sprintf(tpl, name, a), fmt.Sprintf(tpl, name, b)
+				if w1, w2 := c.V(ea), c.V(eb); w1 != unknown && w2 != unknown && w1 != w2 {
+					c.fail("ValidateLicenses", []string{ea, eb}, w1+" vs "+w2, "equal", "validity is unchanged by replacing "+a+" by "+b+" at a term position")
+				}
+				for _, A := range [][]string{{x}, {"MIT"}, {a}} {
+					if c.V(A[0]) != "1" {
+						continue
+					}
+					r1, r2 := c.S(ea, A), c.S(eb, A)
+					if r1 != unknown && r2 != unknown && r1 != r2 {
+						c.fail("Satisfies", map[string]interface{}{"expression": ea, "expression_variant": eb, "allowed": A}, r1+" vs "+r2, "equal", "replacing one spelling by the other at a term position")
+					}
+				}
+			}
+			// allowed lists holding the spelling next to its own variants (same version, with / without exception)
+			for _, A := range [][2][]string{
+				{{a, x + exc}, {b, x + exc}}, {{x + exc, a}, {x + exc, b}}, {{a, a + exc}, {b, b + exc}}, {{a, b}, {b, a}}, {{a, x + "+"}, {b, x + "+"}},
+			} {
+				ok := true
+				for _, q := range append(append([]string{}, A[0]...), A[1]...) {
+					if c.V(q) != "1" {
+						ok = false
+					}
+				}
+				if !ok {
+					continue
+				}
+				for _, e := range append([]string{x, x + exc, x + "+"}, ctx[:min(len(ctx), 4)]...) {
+					if c.V(e) != "1" {
+						continue
+					}
+					r1, r2 := c.S(e, A[0]), c.S(e, A[1])
+					if r1 != unknown && r2 != unknown && r1 != r2 {
+						c.fail("Satisfies", map[string]interface{}{"expression": e, "allowed": A[0], "allowed_variant": A[1]}, r1+" vs "+r2, "equal", "replacing "+a+" by "+b+" inside a longer allowed list")
+					}
+				}
+			}
 			// inside a compound expression
 			e1, e2 := "("+a+" AND MIT) OR ISC", "("+b+" AND MIT) OR ISC"
 			for _, A := range [][]string{{x, "MIT"}, {a, "MIT"}, {b, "MIT"}, {"ISC"}, {"MIT"}} {
@@ -459,6 +512,14 @@ func genC09(c *Ctx) {
 			for _, A := range [][]string{{x}, {x + "+"}, {other}, {"MIT"}} {
 				same("Satisfies with the list-cased id in the expression", "Satisfies", map[string]interface{}{"expression": v, "allowed": A}, c.S(x, A), c.S(v, A))
 				same("Satisfies with the list-cased id in the expression", "Satisfies", map[string]interface{}{"expression": v + "+", "allowed": A}, c.S(x+"+", A), c.S(v+"+", A))
+			}
+			famctx := []string{}
+			for _, y := range famOf(strings.TrimSuffix(strings.TrimSuffix(x, "-or-later"), "-only")) {
+				famctx = append(famctx, y, y+"+")
+			}
+			for _, y := range famctx {
+				same("Satisfies with the list-cased id in the allowed list (family member in the expression)", "Satisfies", map[string]interface{}{"expression": y, "allowed": []string{v}}, c.S(y, []string{x}), c.S(y, []string{v}))
+				same("Satisfies with the list-cased id in the expression (family member allowed)", "Satisfies", map[string]interface{}{"expression": v, "allowed": []string{y}}, c.S(x, []string{y}), c.S(v, []string{y}))
 			}
 			for _, e := range []string{x, x + "+", other, "MIT OR " + x} {
 				same("Satisfies with the list-cased id in the allowed list", "Satisfies", map[string]interface{}{"expression": e, "allowed": []string{v}}, c.S(e, []string{x}), c.S(e, []string{v}))
